@@ -1157,7 +1157,7 @@ func isPoolGet(v ssa.Value) bool {
 // ---------- P-NILGUARD ----------
 
 func rulePNilGuard(c *engine.Context) *report.Rule {
-	r := report.NewRule("P-NILGUARD", "reflect.TypeOf(x) is dereferenced only under x != nil", 1)
+	r := report.NewRule("P-NILGUARD", "reflect.TypeOf(x) is dereferenced only under x != nil", 0)
 	p := c.P
 	for _, fn := range evalFuncs(c) {
 		for _, b := range fn.Blocks {
